@@ -778,6 +778,9 @@ func (s *c02State) runCase(m *types.Block, label string, honest bool, probe type
 		return "reject"
 	})
 	after := s.fingerprint(mh, probe)
+	if verdict == "ok" {
+		s.sawAccepted(mh)
+	}
 	if time.Now().Unix() != now && int64(m.Time())-now >= 0 && int64(m.Time())-now <= 3 {
 		// the clock moved over a second boundary during a near-clock case: not comparable
 		c.Count("skipped:clock-race")
